@@ -240,6 +240,18 @@ func sameMsg(got *dns.Message, want *dns.Message) string {
 	return ""
 }
 
+// fqdnMsg: the same message with its question names spelled fully qualified ("a.bc." and "." for the root), the
+// spelling the resolver itself may be handed. (Owner names of records are not varied: the decoder never produces a
+// trailing dot there and nothing in the property speaks about that spelling.)
+func fqdnMsg(m *dns.Message) *dns.Message {
+	o := *m
+	o.Question = append([]dns.Question{}, m.Question...)
+	for i := range o.Question {
+		o.Question[i].Name += "."
+	}
+	return &o
+}
+
 func checkWireCase(c *wireCase) (diff string) {
 	defer func() {
 		if p := recover(); p != nil {
@@ -249,6 +261,9 @@ func checkWireCase(c *wireCase) (diff string) {
 	want, canEncode := buildMsg(&c.M)
 	spec := ib(c.Bytes)
 	if canEncode {
+		if a, b := want.Bytes(), fqdnMsg(want).Bytes(); !bytes.Equal(a, b) {
+			return fmt.Sprintf("the same message with its question names spelled fully qualified (trailing dot, \".\" for the root) encodes differently: %x vs %x", b[:min(len(b), 40)], a[:min(len(a), 40)])
+		}
 		if got := want.Bytes(); !bytes.Equal(got, spec) {
 			// not the plain encoding: it may still be a valid one (e.g. with name compression). The specification's
 			// decoder decides: the bytes are handed back to TLC (DecMsg(real) = Semi(m)), see bin/props/c13.py
@@ -289,6 +304,17 @@ func checkPadCase(c *wireCase) (diff string) {
 		return "padding case with a record type the encoder does not support (harness)"
 	}
 	before, _ := buildMsg(&c.M)
+	{
+		fq := fqdnMsg(before)
+		fq.AddPadding()
+		fb := fq.Bytes()
+		if len(fb)%128 != 0 {
+			return fmt.Sprintf("padded message (names spelled fully qualified) is %d bytes, not a multiple of 128", len(fb))
+		}
+		if g2, err := dns.DecodeMessage(fb); err != nil || len(g2.Question) != len(before.Question) || (len(g2.Question) > 0 && (strings.TrimSuffix(g2.Question[0].Name, ".") != before.Question[0].Name || g2.Question[0].Type != before.Question[0].Type)) {
+			return fmt.Sprintf("padded message (names spelled fully qualified) does not decode to the same question: %v", err)
+		}
+	}
 	msg.AddPadding()
 	b := msg.Bytes()
 	if len(b)%128 != 0 {
@@ -369,6 +395,28 @@ func TestDnsWireCases(t *testing.T) {
 				ints[k] = int(b)
 			}
 			w.Write(Ev{"idx": i, "redecode": true, "note": c.realDiffers, "real": ints})
+		}
+	}
+	// compression as another implementation may produce it: a pointer whose target is itself a pointer (strictly backwards)
+	if len(cases) > 0 {
+		m := []byte{0x12, 0x34, 0x81, 0x80, 0, 1, 0, 3, 0, 0, 0, 0}
+		m = append(m, 1, 'a', 2, 'b', 'c', 0, 0, 1, 0, 1)                            // question a.bc A IN, name at offset 12
+		m = append(m, 0xc0, 12, 0, 1, 0, 1, 0, 0, 0, 60, 0, 4, 192, 0, 2, 1)         // owner -> 12 (this pointer sits at offset 22)
+		m = append(m, 0xc0, 22, 0, 1, 0, 1, 0, 0, 0, 60, 0, 4, 192, 0, 2, 2)         // owner -> 22 -> 12 (at offset 38)
+		m = append(m, 1, 'x', 0xc0, 38, 0, 1, 0, 1, 0, 0, 0, 60, 0, 4, 192, 0, 2, 3) // x + (-> 38 -> 22 -> 12)
+		got, err, status := decodeWithWatchdog(m, 2*time.Second)
+		d := ""
+		switch {
+		case status != "":
+			d = status
+		case err != nil:
+			d = "a chain of compression pointers, each pointing strictly backwards to another pointer, is refused: " + err.Error()
+		case len(got.Answer) != 3 || got.Answer[0].Name != "a.bc" || got.Answer[1].Name != "a.bc" || got.Answer[2].Name != "x.a.bc":
+			d = fmt.Sprintf("pointer-to-pointer names decoded as %+v", got.Answer)
+		}
+		if d != "" {
+			bad++
+			w.Write(Ev{"idx": -1, "diff": d, "m": Ev{"note": "pointer chain"}, "bytes": fmt.Sprintf("%x", m)})
 		}
 	}
 	w.Write(Ev{"summary": true, "cases": len(cases), "bad": bad})
